@@ -26,6 +26,17 @@ package corr
 //	failrtcp=1,%5     same for the bottom RTCP writer.  The attempted write is still an observable (the component
 //	                  prints it as usual); a correct interceptor's later behaviour is what it would have been
 //	                  without the failure.
+//	errs=eof,osclosed!  WHICH error a failing call returns (a cyclic schedule over the failing calls of both bottom
+//	                  writers): closedpipe = io.ErrClosedPipe, osclosed = os.ErrClosed, eof = io.EOF, netclosed =
+//	                  net.ErrClosed, canceled = context.Canceled, shortwrite = io.ErrShortWrite, fresh = a new
+//	                  errors.New value.  Plain names give a DISTINCT value per failing call that wraps the sentinel
+//	                  (errors.Is finds the sentinel, the value itself, and errAmbWrite); `name!` gives the bare
+//	                  sentinel.  Without `errs=` the schedule is derived from the text of the `amb` op, so every case
+//	                  with a failing writer has its own.  A transport error is the transport's business: an
+//	                  interceptor that is still bound keeps working afterwards whatever the value says (C11 "until
+//	                  Close", C10 "no call blocks forever").  ambErrsLost(err) lists the values returned by failing
+//	                  calls since the last ambErrsMark() that errors.Is does not find in `err` (C01: "errors from
+//	                  every member are reported").
 //	shapes=padonly,plain,pad1,padmax   a cyclic schedule of wire shapes for the RTP packets the component hands to a
 //	                  Read (o.ShapeRaw): the P bit with the padding count in the last octet — the whole payload
 //	                  (padding-only), 1, payload-1 —, at unchanged length.  Interceptors parse the header only;
@@ -46,11 +57,15 @@ package corr
 // (never on its malformed-input classes unless the neighbour passes malformed input through unchanged).
 
 import (
+	"context"
 	"errors"
 	"fmt"
 	"io"
+	"net"
+	"os"
 	"reflect"
 	"strings"
+	"sync"
 	"sync/atomic"
 
 	"github.com/pion/interceptor"
@@ -79,6 +94,10 @@ type Amb struct {
 	FailRTP       ambSched // which calls of the bottom RTP writer fail
 	FailRTCP      ambSched // which calls of the bottom RTCP writer fail
 	Shapes        []string // cyclic schedule of wire shapes for RTP packets handed to a Read
+	Errs          []string // cyclic schedule of error kinds for the failing calls of the bottom writers
+	nErr          int64
+	errMu         *sync.Mutex
+	errLog        []error // values returned by failing calls since the last ErrsMark
 	nRTP, nRTCP   int64
 	nShape        int64
 	Opts          map[string]string // every k=v of the op: options private to one component's interpreter
@@ -121,6 +140,126 @@ func (sc ambSched) hit(n int64) bool {
 
 var errAmbWrite = errors.New("ambient: the transport refused this write")
 
+// AmbErrKinds are the well-known values a transport (or any io.Writer the application supplies) fails with.
+var AmbErrKinds = []string{"closedpipe", "osclosed", "eof", "netclosed", "canceled", "shortwrite", "fresh"}
+
+// ambErr is one failing call's own error value: it wraps the sentinel of its kind, and errors.Is also finds
+// errAmbWrite in it (harnesses written before `errs=` test for that).
+type ambErr struct {
+	n    int64
+	kind string
+	base error
+}
+
+func (e *ambErr) Error() string { return fmt.Sprintf("write #%d refused (%s): %v", e.n, e.kind, e.base) }
+func (e *ambErr) Unwrap() error { return e.base }
+func (e *ambErr) Is(target error) bool {
+	return target == errAmbWrite //nolint:errorlint // identity is meant
+}
+
+// AmbErrOf is the error value of one failing call: `kind` names the sentinel; with a trailing `!` the bare
+// sentinel itself, otherwise a distinct value that wraps it (n tells the values of one case apart).
+func AmbErrOf(kind string, n int64) error {
+	bare := strings.HasSuffix(kind, "!")
+	kind = strings.TrimSuffix(kind, "!")
+	var base error
+	switch kind {
+	case "closedpipe":
+		base = io.ErrClosedPipe
+	case "osclosed":
+		base = os.ErrClosed
+	case "eof":
+		base = io.EOF
+	case "netclosed":
+		base = net.ErrClosed
+	case "canceled":
+		base = context.Canceled
+	case "shortwrite":
+		base = io.ErrShortWrite
+	case "fresh":
+		base = errors.New("ambient: a fresh error value") //nolint:err113 // a value nobody can know
+	default:
+		base = errAmbWrite
+		kind = "amb"
+	}
+	if bare {
+		return base
+	}
+	return &ambErr{n: n, kind: kind, base: base}
+}
+
+// AmbFailWriter is an io.Writer an application may hand to an interceptor (a dump file, a log): the calls of the
+// schedule fail with the error kinds of `Kinds` in turn, every other call succeeds and discards.
+type AmbFailWriter struct {
+	Sched ambSched
+	Kinds []string
+	n, k  int64
+}
+
+func (w *AmbFailWriter) Write(p []byte) (int, error) {
+	if w.Sched.hit(atomic.AddInt64(&w.n, 1)) {
+		k := atomic.AddInt64(&w.k, 1)
+		kind := "amb"
+		if len(w.Kinds) > 0 {
+			kind = w.Kinds[int(k-1)%len(w.Kinds)]
+		}
+		return 0, AmbErrOf(kind, k)
+	}
+	return len(p), nil
+}
+
+// ambErrKinds draws an `errs=` schedule for generators: 1..7 kinds (a writer that keeps failing walks through all of
+// them), one in four of them bare.
+func ambErrKinds(r *Rng) string {
+	n := r.Range(1, 7)
+	xs := make([]string, n)
+	for i := range xs {
+		xs[i] = AmbErrKinds[r.Intn(len(AmbErrKinds))]
+		if r.Chance(1, 4) {
+			xs[i] += "!"
+		}
+	}
+	return "errs=" + strings.Join(xs, ",")
+}
+
+// nextErr is the value the next failing call returns.
+func (a *Amb) nextErr() error {
+	n := atomic.AddInt64(&a.nErr, 1)
+	err := errAmbWrite
+	if len(a.Errs) > 0 {
+		err = AmbErrOf(a.Errs[int(n-1)%len(a.Errs)], n)
+	}
+	a.errMu.Lock()
+	a.errLog = append(a.errLog, err)
+	a.errMu.Unlock()
+	return err
+}
+
+// ErrsMark forgets the failures seen so far; ErrsLost lists the values returned by failing calls since the last
+// mark that errors.Is does not find in `err` ("" when every one of them is reported).
+func (o *Out) ErrsMark() {
+	if o != nil && o.Amb != nil {
+		o.Amb.errMu.Lock()
+		o.Amb.errLog = nil
+		o.Amb.errMu.Unlock()
+	}
+}
+
+func (o *Out) ErrsLost(err error) string {
+	if o == nil || o.Amb == nil {
+		return ""
+	}
+	o.Amb.errMu.Lock()
+	defer o.Amb.errMu.Unlock()
+	var lost []string
+	for _, e := range o.Amb.errLog {
+		if !errors.Is(err, e) {
+			lost = append(lost, strings.ReplaceAll(e.Error(), " ", "_"))
+		}
+	}
+	return strings.Join(lost, ";")
+}
+
 func parseAmb(op string) Amb {
 	_, m := kv(op)
 	split := func(s string) []string {
@@ -129,9 +268,22 @@ func parseAmb(op string) Amb {
 		}
 		return strings.Split(s, ",")
 	}
+	errs := split(m["errs"])
+	if _, given := m["errs"]; !given && (m["failrtp"] != "" || m["failrtcp"] != "") {
+		// no schedule given: the case's own, derived from the text of the op (distinct wrapping values only, so that
+		// errors.Is(err, errAmbWrite) keeps holding for harnesses that test it)
+		h := uint64(14695981039346656037) // FNV-1a
+		for i := 0; i < len(op); i++ {
+			h = (h ^ uint64(op[i])) * 1099511628211
+		}
+		r := NewRng(h)
+		for k := r.Range(1, 3); k > 0; k-- {
+			errs = append(errs, AmbErrKinds[r.Intn(len(AmbErrKinds))])
+		}
+	}
 	return Amb{Before: split(m["before"]), After: split(m["after"]), Chain: m["chain"] == "1", Reuse: m["reuse"] == "1",
 		NilAttr: m["nilattr"] == "1", FreshInfo: m["freshinfo"] == "1", ReuseHdr: m["reusehdr"] == "1", FreshAttr: m["attrs"] == "1",
-		FailRTP: parseSched(m["failrtp"]), FailRTCP: parseSched(m["failrtcp"]), Shapes: split(m["shapes"]), Opts: m}
+		FailRTP: parseSched(m["failrtp"]), FailRTCP: parseSched(m["failrtcp"]), Shapes: split(m["shapes"]), Opts: m, Errs: errs, errMu: &sync.Mutex{}}
 }
 
 func ambNeighbour(kind string) interceptor.Interceptor {
@@ -336,7 +488,7 @@ func (o *Out) RTPWriteErr() error {
 		return nil
 	}
 	if o.Amb.FailRTP.hit(atomic.AddInt64(&o.Amb.nRTP, 1)) {
-		return errAmbWrite
+		return o.Amb.nextErr()
 	}
 	return nil
 }
@@ -347,7 +499,7 @@ func (o *Out) RTCPWriteErr() error {
 		return nil
 	}
 	if o.Amb.FailRTCP.hit(atomic.AddInt64(&o.Amb.nRTCP, 1)) {
-		return errAmbWrite
+		return o.Amb.nextErr()
 	}
 	return nil
 }
